@@ -23,7 +23,15 @@ SC = {
     "rule+pages": [["rule", [0, 3, "path1"]], ["pagesq"]],
     "three": [["batch", {"1": [2]}], ["rule", [0, 3, "path1"]], ["pagesq"]],
     "three-b": [["batch", {"1": [4]}], ["batch", {"4": [1]}], ["netq"]],
+    # concurrent queries walking link lists (two webentities, lists of two stubs)
+    "two-outlinks": [["outlinksq", 0], ["outlinksq", 1]],
+    "out+in": [["outlinksq", 0], ["inlinksq", 1]],
+    "pagelinks+out": [["pagelinksq", 0], ["outlinksq", 1]],
+    "pagelinks+batch": [["pagelinksq", 0], ["batch", {"3": [1, 4]}]],
+    "child+rule": [["childq", 0], ["rule", [0, 3, "path1"]]],
+    "outlinks+net": [["outlinksq", 0], ["netq"]],
 }
+PRELUDE2 = [["links", [[1, 3], [1, 2], [3, 1], [3, 4]]], ["we", [[0, 3]]], ["we", [[3, 3]]]]
 PRELUDE = [["page", 0, False], ["page", 1, True], ["links", [[1, 0]]], ["we", [[0, 3]]]]
 
 
@@ -31,11 +39,23 @@ def levels(tier):
     if tier == "quick":
         return [
             {"name": "pairs", "scenarios": ["two-batches", "batch+pages", "batch+net", "rule+batch", "rule+pages"], "prelude": PRELUDE},
+            {"name": "link-queries", "scenarios": ["two-outlinks", "out+in", "pagelinks+out", "pagelinks+batch"], "prelude": PRELUDE2},
         ]
     return [
         {"name": "pairs", "scenarios": ["two-batches", "batch-shared-target", "batch+pages", "batch+net", "rule+batch", "rule+pages"], "prelude": PRELUDE},
         {"name": "triples", "scenarios": ["three", "three-b"], "prelude": PRELUDE},
+        {"name": "link-queries", "scenarios": ["two-outlinks", "out+in", "pagelinks+out", "pagelinks+batch", "child+rule", "outlinks+net"], "prelude": PRELUDE2},
     ]
+
+
+QUERIES = ("pagesq", "netq", "outlinksq", "inlinksq", "childq", "pagelinksq")
+
+
+def triple_in(E, xs, tr):
+    for x in xs:
+        if same(x[0], tr[0]) and same(x[1], tr[1]) and x[2] == tr[2]:
+            return True
+    return False
 
 
 def lru_set_contains(E, xs, lru):
@@ -57,13 +77,30 @@ def harness(E):
         setattr(self, "n_iterations", self.n_iterations + 1) or True)
     h = History(E, t, ref, pool, ["page"], P)
     h.prelude(P.get("prelude"))
-    weid, wprefixes = h.alive()[0]
+    alive0 = h.alive()
+    weid, wprefixes = alive0[0]
     wprefixes = list(wprefixes)
+    SETQ = {"outlinksq": ("get_webentity_outlinks_iter", "get_webentity_outlinks"),
+            "inlinksq": ("get_webentity_inlinks_iter", "get_webentity_inlinks"),
+            "childq": ("get_webentity_child_webentities_iter", "get_webentity_child_webentities")}
 
-    def atomic(kind):
+    def target(g):
+        w, pf = alive0[g["spec"][1] % len(alive0)]
+        return w, list(pf)
+
+    def atomic(kind, g=None):
         if kind == "pagesq":
             ok, r = E.call("get_webentity_pages", t.get_webentity_pages, weid, wprefixes, _allowed=())
             return [E.wrap(x["lru"]) for x in r]
+        if kind in SETQ:
+            w, pf = target(g)
+            ok, r = E.call(SETQ[kind][1], getattr(t, SETQ[kind][1]), w, pf, _allowed=())
+            return set(x for x in r if x is not None)
+        if kind == "pagelinksq":
+            w, pf = target(g)
+            ok, r = E.call("get_webentity_pagelinks", t.get_webentity_pagelinks, w, pf, include_inbound=True, include_internal=True,
+                           include_outbound=True, _allowed=())
+            return [(E.wrap(a), E.wrap(b), wt) for a, b, wt in r]
         ok, r = E.call("get_webentities_links", t.get_webentities_links, out=True, include_auto=True, _allowed=())
         return dict(((a, b), w) for a, row in r.items() for b, w in row.items() if not isinstance(b, str))
 
@@ -82,6 +119,12 @@ def harness(E):
             g = t.get_webentity_pages_iter(weid, wprefixes)
         elif kind == "netq":
             g = t.get_webentities_links_iter(out=True, include_auto=True)
+        elif kind in SETQ:
+            w, pf = alive0[spec[1] % len(alive0)]
+            g = getattr(t, SETQ[kind][0])(w, list(pf))
+        elif kind == "pagelinksq":
+            w, pf = alive0[spec[1] % len(alive0)]
+            g = t.get_webentity_pagelinks_iter(w, list(pf), include_inbound=True, include_internal=True, include_outbound=True)
         gens.append({"kind": kind, "gen": g, "done": False, "result": None, "started": False, "snaps": [], "steps": 0, "spec": spec})
 
     order = []
@@ -94,8 +137,8 @@ def harness(E):
         E.check(guard <= 60, "schedule:terminates", "the generators do not finish")
         g = live[E.choose("s%d" % guard, len(live))]
         order.append(gens.index(g))
-        if g["kind"] in ("pagesq", "netq") and not g["started"]:
-            g["snaps"].append(atomic(g["kind"]))       # state when the query starts
+        if g["kind"] in QUERIES and not g["started"]:
+            g["snaps"].append(atomic(g["kind"], g))       # state when the query starts
         g["started"] = True
         try:
             st = next(g["gen"])
@@ -111,8 +154,8 @@ def harness(E):
             E.check(False, "schedule:no-failure", "%s request failed with %s: %s" % (g["kind"], type(e).__name__, e))
         E.check(True, "schedule:no-failure")
         for q in gens:
-            if q["kind"] in ("pagesq", "netq") and q["started"] and (not q["done"] or q is g):
-                q["snaps"].append(atomic(q["kind"]))   # state after this step, within the query's lifetime
+            if q["kind"] in QUERIES and q["started"] and (not q["done"] or q is g):
+                q["snaps"].append(atomic(q["kind"], q))   # state after this step, within the query's lifetime
     switches = len([1 for a, b in zip(order, order[1:]) if a != b])
     if switches >= len(gens):
         E.reach("interleaved")
@@ -152,6 +195,19 @@ def harness(E):
             for i in range(len(ans)):
                 for j in range(i):
                     E.check(not same(ans[i], ans[j]), "schedule:query-upper", "a page is listed twice")
+        elif g["kind"] in ("outlinksq", "inlinksq", "childq"):
+            ans = set(x for x in g["result"] if x is not None)
+            low = set.intersection(*g["snaps"])
+            high = set.union(*g["snaps"])
+            E.check(low <= ans, "schedule:query-lower", "%s answer %s misses %s that qualified throughout" % (g["kind"], sorted(ans), sorted(low - ans)))
+            E.check(ans <= high, "schedule:query-upper", "%s answer %s lists %s that qualified at no moment" % (g["kind"], sorted(ans), sorted(ans - high)))
+        elif g["kind"] == "pagelinksq":
+            ans = [(E.wrap(a), E.wrap(b), wt) for a, b, wt in g["result"]]
+            for tr in g["snaps"][0]:
+                if all(triple_in(E, sn, tr) for sn in g["snaps"]):
+                    E.check(triple_in(E, ans, tr), "schedule:query-lower", "a page link present throughout the query is missing from its answer")
+            for tr in ans:
+                E.check(any(triple_in(E, sn, tr) for sn in g["snaps"]), "schedule:query-upper", "the answer lists a page link that existed at no moment of the query")
         elif g["kind"] == "netq":
             if len(g["snaps"]) > 2:
                 E.reach("query-during-write")
